@@ -661,7 +661,7 @@ def extra_stage(tier, rng, work):
             got = classify_obs(rs[0])
             if got not in want:
                 bad.append((i, "bb-mismatch", "%s %d: client observed '%s', the automaton predicts %s" % (kind, k, got, want)))
-            if got == "abort" and rs[0]["status"] == 0 and "abort" in want and kind != "slow_client":
+            if got == "abort" and rs[0]["status"] == 0 and kind != "slow_client":
                 # the request was fully received and the client got no byte at all, only a close
                 bad.append((i, "bb-no-answer", "%s %d: no answer: the backend was lost after a complete response head, nothing was forwarded and the connection was closed after %d ms without any response" % (kind, k, rs[0].get("ms", 0))))
             if got == "relay" and blen is not None and rs[0]["body"] != blen:
